@@ -98,7 +98,9 @@ pub async fn resolve_host_with_cache(host: &str, port: u16) -> Result<SocketAddr
 
     if let Some(addr) = DNS_CACHE.get(host).await {
         DNS_CACHE.advance(host).await;
-        return Ok(addr);
+        // The entry was filled by a lookup for some other request: only its IP is reusable,
+        // the port is the one asked for now.
+        return Ok(SocketAddr::new(addr.ip(), port));
     }
 
     let resolver_opt = DNS_RESOLVER.read().await.clone();
